@@ -148,7 +148,7 @@ static struct pend refi(int n, int depth, int in_handler, int* handled_inside) {
 
 /* ---------- executor with the real macros ---------- */
 
-static int base_depth;
+static __thread int base_depth;
 
 static int cur_depth(void) { return (int)len(current(Exception)) - base_depth; }
 
@@ -414,6 +414,15 @@ static void run_escaping(prog_fn fn, struct pend p, const char* what) {
   else if (!strstr(err, want)) { vh_violation("C07:uncaught:diagnostic-wrong-message", "%s: stderr lacks %s: %.300s", what, want, err); }
 }
 
+static prog_fn thread_fn; static volatile int thread_depth_after;
+static var thread_runner(var args) {
+  (void)args;
+  base_depth = (int)len(current(Exception));
+  thread_fn();
+  thread_depth_after = (int)len(current(Exception)) - base_depth;
+  return NULL;
+}
+
 static void run_program(prog_fn fn, int root, const char* what) {
   expect.n = 0; expect.overflow = 0;
   got->n = 0; got->overflow = 0;
@@ -426,7 +435,19 @@ static void run_program(prog_fn fn, int root, const char* what) {
   if (p.active) {
     run_escaping(fn, p, what);
   } else {
-    fn();
+    /* every third program runs in a second thread (the main thread waits in join): a thread has an exception context
+       of its own, in which the constructs behave exactly as in the main thread, whatever the main thread did before */
+    static long serial;
+    if (serial++ % 3 == 2) {
+      thread_fn = fn; thread_depth_after = -1;
+      var t = new_raw(Thread, $(Function, thread_runner));
+      call(t); join(t); del_raw(t);
+      vh_eval();
+      if (thread_depth_after != 0) { vh_violation("C07:depth:not-restored-after-program", "%s run in a second thread: depth %d after the program, 0 before", what, thread_depth_after); }
+      vh_count("programs_run_in_a_second_thread");
+    } else {
+      fn();
+    }
     compare_traces(what, 0);
     vh_eval();
     if ((int)len(current(Exception)) != base_depth) {
